@@ -147,6 +147,17 @@ def generate(rng: Prng, tier: str) -> dict:
         p["api"] = "feature_forms"
     # a call that fails (or answers nonsense) on an inadmissible tree, in between: it must leave nothing behind
     p["poison"] = h2.choice(["nan_x_root", "nan_x_mid", "inf_x_last"]) if h2.chance(0.25) else None
+    # the caller's interpreter-wide settings: NumPy floating-point errors raised (divide, invalid), warnings as errors
+    p["fp_errors"] = h2.choice([None, None, None, "raise"])
+    p["warnings"] = h2.choice([None, None, None, "error"])
+    if kind == "arbitrary" and h2.chance(0.2):
+        # a point saved twice (or more) in a row, the copies carrying other radii: compartments of zero length
+        t = p["tree"]
+        for i in range(1, len(t["pid"])):
+            if h2.chance(0.3):
+                q = t["pid"][i]
+                for c in "xyz":
+                    t[c][i] = t[c][q]
     # accuracy levels handed over as NumPy integers (`for a in np.arange(1, 5)`): level 1 is level 1
     p["level_type"] = h2.choice(["int", "int", "int", "np.int64", "np.int32", "np.uint8"])
     if kind != "arbitrary":
@@ -325,6 +336,15 @@ FORMS = ["kw", "tuple", "tuple_override", "tuple", "list", "dict", "tuple", "kw"
 
 
 def call_volume(tree, level, api: str, shared: dict) -> float:
+    import warnings as _w
+
+    with np.errstate(divide=shared.get("fp_errors") or "warn", invalid=shared.get("fp_errors") or "warn"), _w.catch_warnings():
+        if shared.get("warnings") == "error":
+            _w.simplefilter("error")
+        return _call_volume(tree, level, api, shared)
+
+
+def _call_volume(tree, level, api: str, shared: dict) -> float:
     lt = shared.get("level_type", "int")
     if lt != "int" and isinstance(level, int):
         level = getattr(np, lt.split(".")[1])(level)
@@ -425,7 +445,7 @@ def execute(program: dict) -> dict:
     with World() as world:
         try:
             tree = common.build_tree(t, source="gen")
-            shared: dict = {"level_type": program.get("level_type", "int")}
+            shared: dict = {"level_type": program.get("level_type", "int"), "fp_errors": program.get("fp_errors"), "warnings": program.get("warnings")}
             for ri, edit in enumerate(rounds):
               if violation:
                   break
@@ -434,7 +454,7 @@ def execute(program: dict) -> dict:
                   # session history: the same solid along another direction, a new tree object, same process
                   t, pos, axis, overlap, n = prepare(dict(program, axis=edit["axis"]))
                   tree = common.build_tree(t, source="gen")
-                  shared = {"level_type": program.get("level_type", "int")}
+                  shared = {"level_type": program.get("level_type", "int"), "fp_errors": program.get("fp_errors"), "warnings": program.get("warnings")}
                   schedules = program["schedules"][:1]
                   world.log("followup_axis", ri, [float.hex(float(v)) for v in edit["axis"]])
                   world.probe("c14.followup_tree_other_direction")
@@ -443,7 +463,7 @@ def execute(program: dict) -> dict:
                   new_r = f32(t["r"][i] * edit["factor"])
                   if edit["on"] == "copy":
                       tree = tree.copy()
-                      shared = {"level_type": program.get("level_type", "int")}
+                      shared = {"level_type": program.get("level_type", "int"), "fp_errors": program.get("fp_errors"), "warnings": program.get("warnings")}
                   tree.node(i).r = new_r
                   t["r"][i] = float(tree.node(i).r)
                   world.log("edit", ri, i, edit["on"], float.hex(t["r"][i]))
